@@ -109,8 +109,8 @@ def enum_cases():
                 yield case(strenc(fixed(tag + 24), lead(tag)), [], pk2, pos)
 
 
-REPERTOIRE = {"US-ASCII": "AZaz09 _-", "ISO-8859-1": "Aé\xa0ÿz", "Windows-1252": "A€œz", "UTF-8": "Aé€𝄞z", "UTF-16LE": "Aé€zĀ",
-              "UTF-16BE": "Aé€zĀ", "UTF-32LE": "Aé€𝄞", "UTF-32BE": "Aé€𝄞"}
+REPERTOIRE = {"US-ASCII": "AZaz09 _-", "ISO-8859-1": "Aé\xa0ÿz", "Windows-1252": "A€œz", "UTF-8": "Aé€𝄞z\ufeff", "UTF-16LE": "Aé€zĀ\ufeff",
+              "UTF-16BE": "Aé€zĀ\ufeff", "UTF-32LE": "Aé€𝄞\ufeff", "UTF-32BE": "Aé€𝄞\ufeff"}      # U+FEFF is a character of the text like any other
 PYCODEC = {"US-ASCII": "ascii", "ISO-8859-1": "latin-1", "Windows-1252": "cp1252"}
 
 
